@@ -18,7 +18,7 @@ META = dict(
     level="model_checking",
     encoded=["specpart.c: partinit, ptnghb, partition, ptsort, pt_fld, fifo_add, fifo_empty, fifo_first, int_minval (LLVM IR of the current source, clang -O0 + mem2reg)"],
     encoded_files=["wavespectra/partition/specpart/specpart.c", "wavespectra/partition/specpart/specpart_wrap.c"],
-    bounds="spectra on grids 1x1..2x3 (degenerate shapes), 1x4, 4x1, 3x2, 2x4 (quick) and 3x3, 4x2, 1x6, 6x1, 3x4 (thorough) with ihmax in 1..3 (4 on the small multi-basin grids); every bin a symbolic real in [0, ihmax-1] with some bin at 0 and some at ihmax-1 (the watershed is invariant under positive affine rescaling, so this covers every non-constant spectrum up to rounding); all circular shifts of the direction axis; neighbour table for every shape up to 8x8",
+    bounds="spectra on grids 1x1..2x3 (degenerate shapes), 1x4, 4x1, 3x2 (quick) and 3x3 with 3 levels (quick, cut into 16 sub-trees, time-boxed) and 3x3, 2x4, 4x2, 1x6, 6x1, 3x4 (thorough; 2x4 also with 5 levels) with ihmax in 1..3 (4 on the small multi-basin grids); every bin a symbolic real in [0, ihmax-1] with some bin at 0 and some at ihmax-1 (the watershed is invariant under positive affine rescaling, so this covers every non-constant spectrum up to rounding); all circular shifts of the direction axis; neighbour table for every shape up to 8x8",
     outside="float rounding of the discretisation (zmax-z, *fact, round) - real arithmetic stands in; grids beyond the bound; ihmax > 4 (the default 100 matters only through the number of distinct levels, at most the number of bins)",
     assumptions=["spectrum bins are finite reals", "clang's IR is a faithful rendering of the C source at -O0"],
 )
@@ -137,8 +137,8 @@ def watershed(env, nk, nth, ihmax):
 
 
 @harness(P, quick=_parts(16, nk=3, nth=3, ihmax=3),
-         thorough=_parts(16, nk=3, nth=3, ihmax=3) + _parts(16, nk=2, nth=4, ihmax=3) + _parts(16, nk=4, nth=2, ihmax=3) + _parts(16, nk=3, nth=4, ihmax=2) + _parts(16, nk=2, nth=4, ihmax=5),
-         max_paths=20000, max_paths_thorough=200000, time_budget=240, time_budget_thorough=1500, hard_timeout=600, hard_timeout_thorough=1800, witnesses=1)
+         thorough=_parts(16, nk=3, nth=3, ihmax=3) + _parts(16, nk=2, nth=4, ihmax=3) + _parts(16, nk=4, nth=2, ihmax=3) + _parts(16, nk=3, nth=4, ihmax=3) + _parts(16, nk=2, nth=4, ihmax=5),
+         max_paths=20000, max_paths_thorough=200000, time_budget=240, time_budget_thorough=900, hard_timeout=600, hard_timeout_thorough=1200, witnesses=1)
 def watershed_split(env, nk, nth, ihmax, part):
     """the claims of `watershed` on a larger grid, the path tree cut into n sub-trees (`part="i/n"`, split on the
     order of fixed pairs of bins) explored by separate worker processes."""
@@ -162,8 +162,12 @@ def _watershed(env, nk, nth, ihmax, part):
         except L.Violation as e:
             env.claim(False, "native routine: memory safety / no undefined behaviour / termination", {"violation": str(e)[:300]})
             return
-        env.claim(levels is not None, "discretised levels are determined on the path")
         if levels is None:
+            # the routine returned before discretising: only a constant spectrum may take that exit, with no partition
+            flat_ = [x for r in rows for x in r]
+            const = S.SymBool(z3.And(*[(a.e if isinstance(a, Sym) else a) == (flat_[0].e if isinstance(flat_[0], Sym) else flat_[0]) for a in flat_[1:]])) if len(flat_) > 1 else True
+            env.claim(const, "the early exit (no discretisation) is taken by constant spectra only")
+            env.claim(all((not L.is_sym(x)) and x == 0 for r in labels for x in r), "constant spectrum gives no partition")
             return
         env.note(steps=it.steps)
         problems = W.judge(labels, levels) if len({x for r in levels for x in r}) > 1 else ([] if all(x >= 0 for r in labels for x in r) else ["negative label"])
